@@ -22,6 +22,10 @@ def run(ck):
         if not ck.mine(i):
             continue
         rng = ck.rng("case", i)
+        if i % 7 == 3:
+            with ck.watchdog(180, "late-share case %d" % i):
+                late_share_case(ck, rng, i)
+            continue
         case = F.build(rng, allow_hang=True)
         truth, info = F.classify(case)
         profile = rng.choice(["fifo", "per-server-fifo", "free"])
@@ -84,3 +88,94 @@ def run(ck):
             break
     ck.require_monitor("availability-oracle")
     ck.require_reach("must-succeed", "must-fail", "status-ok", "status-err")
+
+
+def late_share_case(ck, rng, i):
+    """Directed history: k+1 shares, one per server; the server of the spare share answers the share query late,
+    while the reader is paused between segments (or between two reads on the same node); then one of the shares
+    used so far is deleted and the read continues.  k intact shares on answering servers remain throughout,
+    so the read(s) must succeed with the exact bytes."""
+    import os
+    from vf.grid import VGrid
+    from vf import imm
+    from allmydata import uri
+    k = rng.randint(1, 3)
+    n = k + 1
+    segsize = rng.choice([32, 64, 128])
+    size = segsize * rng.randint(3, 5) + rng.randint(0, 7)
+    p = dict(k=k, n=n, segsize=segsize)
+    data = imm.gen_data(rng, size)
+    key = rng.randbytes(16)
+    try:
+        cap, shares = imm.honest_shares(n, p, data, key)
+    except RuntimeError:
+        ck.observe("scratch-upload-failed")
+        return
+    profile = rng.choice(["fifo", "per-server-fifo", "free"])
+    g = VGrid(nservers=n, seed=rng.getrandbits(32), profile=profile, keep_log=False)
+    try:
+        si = uri.from_string(cap).get_storage_index()
+        imm.install_shares(g, si, shares, {s: s for s in shares})
+        late = rng.randrange(n)
+        delay = rng.choice([0.5, 3.0, 12.0])
+        g.servers[late].add_fault("delay", method="get_buckets", delay=delay)
+        c = g.make_client(k=k, happy=1, n=n, max_segment_size=segsize)
+        node = c.create_node_from_uri(cap)
+        variant = rng.choice(["pause-between-segments", "two-reads"])
+        state = {"paused": False}
+
+        def on_write(cons, chunk):
+            if variant == "pause-between-segments" and not state["paused"] and cons.producer is not None:
+                state["paused"] = True
+                cons.producer.pauseProducing()
+        cons = imm.RecordingConsumer(on_write)
+        box = []
+        if variant == "two-reads":
+            st, res = g.wait(node.read(cons, 0, segsize))      # first segment only
+            ok1 = (st == "ok" and cons.value() == data[:segsize])
+        else:
+            d = node.read(cons, 0, None)
+            d.addBoth(box.append)
+            g.sched.run(until=lambda: state["paused"] or bool(box), max_steps=100000, horizon=600.0)
+            ok1 = True
+        # let the late answer arrive while nothing is being fetched
+        g.sched.run(until=lambda: False, max_steps=100000, horizon=delay + 5.0)
+        # one of the other shares disappears
+        victim = rng.choice([s for s in range(n) if s != late])
+        for (vs, sh, path) in g.find_shares(si):
+            if sh == victim:
+                os.unlink(path)
+        ck.hit("late-answer-while-idle")
+        if variant == "two-reads":
+            cons2 = imm.RecordingConsumer()
+            st, res = g.wait(node.read(cons2, 0, None), horizon=4 * 3600.0)
+            got, want = cons2.value(), data
+        else:
+            if cons.producer is not None:
+                cons.producer.resumeProducing()
+            g.sched.run(until=lambda: bool(box), max_steps=200000, horizon=4 * 3600.0)
+            if box:
+                r = box[0]
+                isf = hasattr(r, "type") and hasattr(r, "value")
+                st, res = ("err", r) if isf else ("ok", r)
+            else:
+                st, res = "hang", None
+            got, want = cons.value(), data
+        ck.mon("availability-oracle")
+        ck.hit("must-succeed")
+        w = dict(k=k, n=n, size=size, segsize=segsize, late_server=late, delay=delay, deleted_share=victim,
+                 variant=variant, profile=profile, status=st,
+                 error=(res.type.__name__ + ": " + str(res.value)[:200]) if st == "err" else None)
+        if st == "ok" and got != want:
+            ck.violation("success-with-wrong-data", "read succeeded with bytes that differ from the upload", w)
+        elif st == "err" or not ok1:
+            ck.violation("read-failed-with-k-good-shares",
+                         "k=%d intact shares stay on answering servers throughout (one answered the share query late while "
+                         "the reader was idle, another share was then deleted), yet the read failed: %s" % (k, w["error"]), w)
+        elif st != "ok":
+            ck.violation("read-did-not-complete-with-k-good-shares",
+                         "k=%d intact shares stay on answering servers, the read never completed (%s)" % (k, st), w)
+        ck.hit("status-" + st)
+        ck.case("late-share", key=repr(w), nontrivial=True, sample=w)
+    finally:
+        g.close()
